@@ -136,6 +136,7 @@ func extra() {
 	t6()
 	f13()
 	t7()
+	f14()
 }
 
 // F7: per clone function of workflow/utils/clone/clone.go, the fields that are always copied (keys of
